@@ -949,6 +949,12 @@ impl fmt::Display for Number {
     }
 }
 
+/// Radix printers render negative fixnums and rationals in sign-magnitude
+/// (as bignums already are), so that the spelling reads back as the same number.
+fn big_ratio(num: &Rational32) -> BigRational {
+    BigRational::new_raw(BigInt::from(*num.numer()), BigInt::from(*num.denom()))
+}
+
 fn write_float_fract(mut num: f64, radix: usize, f: &mut Formatter<'_>) -> fmt::Result {
     let mut first_digit = true;
     loop {
@@ -969,7 +975,7 @@ fn write_float_fract(mut num: f64, radix: usize, f: &mut Formatter<'_>) -> fmt::
 impl LowerHex for Number {
     fn fmt(&self, f: &mut Formatter<'_>) -> fmt::Result {
         match self {
-            Number::Fixnum(num) => fmt::LowerHex::fmt(num, f),
+            Number::Fixnum(num) => fmt::LowerHex::fmt(&BigInt::from(*num), f),
             Number::Float(num) => {
                 if *num < 0_f64 {
                     write!(f, "-")?;
@@ -978,7 +984,7 @@ impl LowerHex for Number {
                 write_float_fract(*num, 16, f)
             }
             Number::BigInt(num) => fmt::LowerHex::fmt(num.as_ref(), f),
-            Number::Rational(num) => fmt::LowerHex::fmt(num, f),
+            Number::Rational(num) => fmt::LowerHex::fmt(&big_ratio(num), f),
         }
     }
 }
@@ -986,7 +992,7 @@ impl LowerHex for Number {
 impl Octal for Number {
     fn fmt(&self, f: &mut Formatter<'_>) -> fmt::Result {
         match self {
-            Number::Fixnum(num) => fmt::Octal::fmt(num, f),
+            Number::Fixnum(num) => fmt::Octal::fmt(&BigInt::from(*num), f),
             Number::Float(num) => {
                 if *num < 0_f64 {
                     write!(f, "-")?;
@@ -995,7 +1001,7 @@ impl Octal for Number {
                 write_float_fract(*num, 8, f)
             }
             Number::BigInt(num) => fmt::Octal::fmt(num.as_ref(), f),
-            Number::Rational(num) => fmt::Octal::fmt(num, f),
+            Number::Rational(num) => fmt::Octal::fmt(&big_ratio(num), f),
         }
     }
 }
@@ -1003,7 +1009,7 @@ impl Octal for Number {
 impl Binary for Number {
     fn fmt(&self, f: &mut Formatter<'_>) -> fmt::Result {
         match self {
-            Number::Fixnum(num) => fmt::Binary::fmt(num, f),
+            Number::Fixnum(num) => fmt::Binary::fmt(&BigInt::from(*num), f),
             Number::Float(num) => {
                 if *num < 0_f64 {
                     write!(f, "-")?;
@@ -1012,7 +1018,7 @@ impl Binary for Number {
                 write_float_fract(*num, 2, f)
             }
             Number::BigInt(num) => fmt::Binary::fmt(num.as_ref(), f),
-            Number::Rational(num) => fmt::Binary::fmt(num, f),
+            Number::Rational(num) => fmt::Binary::fmt(&big_ratio(num), f),
         }
     }
 }
